@@ -336,6 +336,7 @@ func (sc *scen) harness(props map[string]bool, out *[]violation) func() *sched.H
 				}
 				r.svc.Seams = false
 				r.svc.Outcomes = nil
+				close(r.svc.Release)
 				// let every poll round and lookup still in flight finish first: a Refresh that joins a round
 				// begun earlier legitimately shares that round's (older) answers
 				synctest.Wait()
@@ -484,8 +485,18 @@ func (r *run) act(tn string, ctx context.Context, a string) {
 		r.looks = append(r.looks, rec)
 		r.mu.Unlock()
 	case "upd":
-		u, err := setec.NewUpdater(ctx, r.st, name, func(b []byte) (string, error) { return string(b), nil })
+		begin := r.svc.now()
 		r.mu.Lock()
+		r.pending[tn+":"+name] = begin
+		r.mu.Unlock()
+		u, err := setec.NewUpdater(ctx, r.st, name, func(b []byte) (string, error) { return string(b), nil })
+		rec := lookupRec{thread: tn, name: name, begin: begin, end: r.svc.now(), err: err, ok: err == nil, ctxKind: r.sc.CtxFor[tn], ctxErrAtEnd: ctx.Err()}
+		if u != nil {
+			rec.handleVal = u.Get()
+		}
+		r.mu.Lock()
+		delete(r.pending, tn+":"+name)
+		r.looks = append(r.looks, rec)
 		if err != nil {
 			r.updErr = append(r.updErr, fmt.Sprintf("%s: NewUpdater(%q): %v", tn, name, err))
 		} else {
@@ -502,6 +513,14 @@ func (r *run) act(tn string, ctx context.Context, a string) {
 				r.fail("C15", "updater-unserved-value", "%s: Updater.Get for %q returned %q, never served", tn, name, v)
 			}
 		}
+	case "srvput":
+		// a server-side change performed by a harness thread (program order with its other actions)
+		r.x.Seam("env.srv-put(" + name + ")")
+		r.svc.Put(name)
+		r.x.Note("service: %s now at v%d", name, r.svc.S[name].Active)
+	case "cancelctx":
+		r.x.Seam("env.cancel(" + name + ")")
+		r.cancels[name]()
 	case "sleep":
 		d, _ := time.ParseDuration(name)
 		time.Sleep(d)
@@ -685,13 +704,6 @@ func (r *run) judge() {
 		calls := map[string]int{}
 		for _, l := range r.looks {
 			calls[l.name]++
-		}
-		for _, acts := range r.sc.Threads {
-			for _, a := range acts {
-				if n, ok := strings.CutPrefix(a, "upd:"); ok {
-					calls[n]++ // NewUpdater on an unknown name performs a lookup too
-				}
-			}
 		}
 		for n, c := range calls {
 			if cnt[n] > c {
